@@ -414,6 +414,18 @@ m_msg_set_err (m_msg_t m, munge_err_t e, char *s)
 
     if ((m->error_num == EMUNGE_SUCCESS) && (e != EMUNGE_SUCCESS)) {
         m->error_num = e;
+        /*
+         *  An unpacked message can carry an error string while its error
+         *    number is still EMUNGE_SUCCESS; release it before it is replaced.
+         */
+        if (m->error_str != NULL) {
+            if (!m->error_is_copy) {
+                free (m->error_str);
+            }
+            m->error_str = NULL;
+            m->error_len = 0;
+            m->error_is_copy = 0;
+        }
         assert (m->error_str == NULL);
         assert (m->error_len == 0);
         assert (m->error_is_copy == 0);
